@@ -272,6 +272,10 @@ func (fr *Frame) applySpecClosure(spec *FuncSpec, key string, sig *types.Signatu
 			if i < len(rec.bindings) {
 				if pt, ok := fv.Type().Underlying().(*types.Pointer); ok {
 					env.vars[fv.Name()] = SV{t: fc.load(cur, rec.bindings[i].t, pt.Elem()), typ: pt.Elem()}
+					if env.fvAddr == nil {
+						env.fvAddr = map[string]SV{}
+					}
+					env.fvAddr[fv.Name()] = SV{t: rec.bindings[i].t, typ: pt.Elem()}
 				}
 			}
 		}
@@ -725,6 +729,12 @@ func (fr *Frame) appendBuiltin(c *ssa.CallCommon, args []SV, st *State, g string
 	}
 	fc.emit(fmt.Sprintf("(assert (forall ((j Int)) (! (=> (and (<= 0 j) (< j %s)) (= (select %s %s) (select %s %s))) :pattern ((select %s %s)))))",
 		slen(s.t), nb, idx(ro, "j"), oldBlk, idx(soff(s.t), "j"), nb, idx(ro, "j")))
+	if fr.rootMode("append-back") {
+		// `mode append-back`: the same fact, also instantiated from reads of the OLD block, so that an element known before the append
+		// (e.g. an existential witness of a loop invariant) is known to be an element of the result
+		fc.emit(fmt.Sprintf("(assert (forall ((j Int)) (! (=> (and (<= 0 j) (< j %s)) (= (select %s %s) (select %s %s))) :pattern ((select %s %s)))))",
+			slen(s.t), nb, idx(ro, "j"), oldBlk, idx(soff(s.t), "j"), oldBlk, idx(soff(s.t), "j")))
+	}
 	fc.emit(fmt.Sprintf("(assert (=> %s (forall ((i Int)) (! (=> (or (< i %s) (>= i (+ %s %s))) (= (select %s i) (select %s i))) :pattern ((select %s i))))))",
 		inPlace, soff(s.t), soff(s.t), newLen, nb, oldBlk, nb))
 	fc.setComp(st, k, srt, app("store", heap, sarr(res), nb))
